@@ -140,6 +140,8 @@ enum Effect {
     SwapDep(usize, usize, Vec<usize>, bool),
     MakeStale(usize),
     InvalidateExpert(usize),
+    Subscribe(usize, i64),
+    Unsubscribe(usize, i64),
     Stabilise,
     Panic,
 }
@@ -256,6 +258,8 @@ impl P {
             "adddep" => Effect::AddDep(n(1), n(2), n(3), p[4] == "1"),
             "rmdep" => Effect::RemoveDep(n(1), n(2)),
             "swapdep" => Effect::SwapDep(n(1), n(2), p[4].split(',').map(|x| x.parse().unwrap()).collect(), p[3] == "1"),
+            "subscribe" => Effect::Subscribe(n(1), z(2)),
+            "unsub" => Effect::Unsubscribe(n(1), z(2)),
             "makestale" => Effect::MakeStale(n(1)),
             "invalidate" => Effect::InvalidateExpert(n(1)),
             "stabilise" => Effect::Stabilise,
@@ -415,6 +419,7 @@ struct Ctx {
     dep_slots: RefCell<Vec<Option<usize>>>,
     next_edge: Cell<usize>,
     next_perkey: Cell<usize>,
+    tokens: RefCell<std::collections::HashMap<(usize, i64), SubscriptionToken>>,
     foreign_node: I,
     _foreign_state: IncrState,
     inv_count: Cell<usize>,
@@ -538,6 +543,19 @@ fn run_effects(arg: &Val, effs: &[Effect]) {
                     }
                 }
             }
+            Effect::Subscribe(o, hid) => {
+                let ob = c.obs.borrow().get(*o).and_then(|v| v.first().cloned());
+                if let Some(ob) = ob {
+                    let _ = do_subscribe(&ob, *o, *hid, vec![]);
+                }
+            }
+            Effect::Unsubscribe(o, tok) => {
+                let ob = c.obs.borrow().get(*o).and_then(|v| v.first().cloned());
+                let t = c.tokens.borrow().get(&(*o, *tok)).copied();
+                if let (Some(ob), Some(t)) = (ob, t) {
+                    let _ = ob.unsubscribe(t);
+                }
+            }
             Effect::MakeStale(e) => {
                 if let Some(rec) = expert_rec(*e) {
                     rec.weak.make_stale()
@@ -556,6 +574,37 @@ fn run_effects(arg: &Val, effs: &[Effect]) {
             Effect::Panic => panic!("injected"),
         }
     }
+}
+
+// ---------------------------------------------------------------- subscriptions
+/// observer.try_subscribe(handler): the handler logs what it is given, then performs its effects
+fn do_subscribe(ob: &Observer<Val>, o: usize, hid: i64, effs: Vec<Effect>) -> Result<SubscriptionToken, ObserverError> {
+    let tok = Rc::new(Cell::new(-1i64));
+    let tok2 = tok.clone();
+    let g = Guard::new();
+    let r = ob.try_subscribe(move |u: Update<&Val>| {
+        let _g = &g;
+        user_call();
+        let (kind, v) = match u {
+            Update::Initialised(v) => ("Initialised", Some(v.clone())),
+            Update::Changed(v) => ("Changed", Some(v.clone())),
+            Update::Invalidated => ("Invalidated", None),
+        };
+        ev(format!(
+            "upd obs={} tok={} hid={} {} {}",
+            o,
+            tok2.get(),
+            hid,
+            kind,
+            v.as_ref().map_or("-".to_string(), |v| format!("{v:?}"))
+        ));
+        run_effects(v.as_ref().unwrap_or(&Val::Unit), &effs);
+    });
+    if let Ok(t) = &r {
+        tok.set(token_number(t));
+        ctx().tokens.borrow_mut().insert((o, token_number(t)), *t);
+    }
+    r
 }
 
 // ---------------------------------------------------------------- expert nodes
@@ -997,6 +1046,7 @@ impl Interp {
             dep_slots: RefCell::new(vec![]),
             next_edge: Cell::new(0),
             next_perkey: Cell::new(0),
+            tokens: RefCell::new(Default::default()),
             foreign_node,
             _foreign_state: foreign,
             inv_count: Cell::new(0),
@@ -1179,33 +1229,11 @@ impl Interp {
                 let o = p.nat();
                 let hid = p.int();
                 let effs = p.effs();
-                let tok = Rc::new(Cell::new(-1i64));
-                let tok2 = tok.clone();
                 let ob = self.obs0(o).expect("subscribe on dropped observer");
-                let g = Guard::new();
-                let r = ob.try_subscribe(move |u: Update<&Val>| {
-                    let _g = &g;
-                    user_call();
-                    let (kind, v) = match u {
-                        Update::Initialised(v) => ("Initialised", Some(v.clone())),
-                        Update::Changed(v) => ("Changed", Some(v.clone())),
-                        Update::Invalidated => ("Invalidated", None),
-                    };
-                    ev(format!(
-                        "upd obs={} tok={} hid={} {} {}",
-                        o,
-                        tok2.get(),
-                        hid,
-                        kind,
-                        v.as_ref().map_or("-".to_string(), |v| format!("{v:?}"))
-                    ));
-                    run_effects(v.as_ref().unwrap_or(&Val::Unit), &effs);
-                });
-                match r {
+                match do_subscribe(&ob, o, hid, effs) {
                     Ok(t) => {
-                        tok.set(token_number(&t));
                         self.hsubs.push(Some(t));
-                        format!("tok {}", tok.get())
+                        format!("tok {}", token_number(&t))
                     }
                     Err(e) => {
                         self.hsubs.push(None);
